@@ -310,7 +310,10 @@ fn gen_script(rng: &mut Rng, len: usize, flavour: u64) -> String {
                 let (mid, kind) = pick_mid(rng, &g);
                 let kk = if kind == "sd" { *rng.pick(&["e", "e", "r", "i", "d"]) } else if kind == "sa" { *rng.pick(&["e", "e", "r", "i", "d"]) } else { "x" };
                 parts.push(format!("{}.{}.{}", mid, kk, g.toks)); }
-            s.push(format!("M:{}:{}", *rng.pick(&[0u64, 0, 0, 17, 50, 83]), parts.join(",")));
+            // a cancelled next() that is still queued behind a blocked one would meet a cut burst half-way (which of its messages it sees is
+            // a matter of timing inside one step): after a C step bursts come in one write
+            let pct = if s.iter().any(|x| x.starts_with("C:")) { 0 } else { *rng.pick(&[0u64, 0, 0, 17, 50, 83]) };
+            s.push(format!("M:{}:{}", pct, parts.join(",")));
         }
         else if roll < 92 {
             let streams: Vec<usize> = g.kinds.iter().enumerate().filter(|(_, k)| *k == "sd" || *k == "sa").map(|(i, _)| i).collect();
